@@ -114,7 +114,7 @@ pub fn seed_corpus(target: &str) -> Vec<Vec<u8>> {
         "wire_request" | "wire_response" | "inbound_stream" => {
             let is_req = target != "wire_response";
             for (i, route) in ["/exact", "/wild/a/b", "/svc.Name/method", "", "/"].iter().enumerate() {
-                let m = c07::Msg { is_request: is_req, route: route.to_string(), status_idx: i as u8, headers: (0..i).map(|k| (format!("k{k}"), format!("v{k}"))).collect(), body_len: (i * 37) as u32, body_seed: i as u64, shuffle: 0, with_extension: false };
+                let m = c07::Msg { is_request: is_req, route: route.to_string(), status_idx: i as u8, headers: (0..i).map(|k| (format!("k{k}"), format!("v{k}"))).collect(), body_len: (i * 37) as u32, body_seed: i as u64, shuffle: 0, with_extension: false, cuts: vec![] };
                 out.push(m.ref_bytes());
             }
             out.push(hex::decode(rw::GOLDEN_REQUEST).unwrap());
